@@ -31,9 +31,16 @@ ASSUMPTIONS = [
     'theorems are about these two models, tied by the correspondence on values with $NAME, ${NAME}, "$$", lone "$", '
     'unterminated "${", non-identifier and digit-leading names',
     'FlowIR.fill_in (%(workflow-variable)s interpolation of values and of the environment name) is a Section function '
-    'on values; generated values and names contain no "%(" so it is the identity in the correspondence',
-    'platform names are "default" and one other platform "p"; both are listed in the document; '
+    'on values in the first group of theorems and the identity in the first correspondence (its values contain no "%("); '
+    'the session correspondence (harness/c17_session.py, Env.InstModel) generates %(name)s references and models '
+    'FlowIR.interpolate on the fragment: literal text without "[" , references %(name)s with names without ".", never '
+    '"replica", acyclic definitions (the code recurses without bound), no reference to a variable holding a YAML null '
+    '(FlowIRVariableInvalid), every reference inside a GLOBAL variable resolvable among the global variables',
+    'platform names are "default" and one other platform "p" (sessions: "default", "p", "q"); all are listed in the document; '
     'FlowIRPlatformUnknown paths are outside the model',
+    'sessions call instance()/replicate() with ignore_errors=True (what FlowIRExperimentConfiguration.replicate and '
+    'store_unreplicated_flowir_to_disk do); the two fill_in passes of instance() over an environment are modelled as one '
+    'lenient pass in the context "global variables updated by the environment" (equal on the fragment; tied by the correspondence)',
     'the configuration is built with validate=False (so an unknown environment surfaces as FlowIREnvironmentUnknown '
     'from environmentForNode, the error named by the property, instead of a load-time validation error)',
     'environment variable names are ASCII identifiers; values are ASCII',
@@ -542,7 +549,14 @@ def run(ctx):
                 'variables, "$$", lone "$", unterminated and non-identifier references, YAML null/int/bool scalars, DEFAULTS lists) '
                 'under random launch environments; for 300 (thorough 3000) of them a twin differing in one unreferenced launch '
                 'variable; the two substitution functions alone on every text of length <= 4 (thorough 5) over "$ { } A 1 space" '
-                'plus 600 (6000) random texts; non-trivial = a '
+                'plus 600 (6000) random texts; SESSIONS: sequences of questions to ONE FlowIRConcrete of a three-platform document '
+                'with global variables and %(name)s references in environment values (instance / replicate for a platform, '
+                'get_environment(name, platform), primitive and non-primitive FlowIRExperimentConfiguration built on the object: '
+                'environmentForNode / environmentWithName), each answer compared with Env.InstModel on the original document, with a '
+                'fresh object and - configurations - with the document without the environments of other names: systematic family '
+                'first-question x platform X then platform Y (30), systematic family two environments where one defines a name '
+                'the other references x declaration order x global/foreign/own (6 x 12 questions), 400 (thorough 6000) random '
+                'sessions; non-trivial = a '
                 'non-empty declared environment is selected (named or default); distinct by full case')
     cases = list(CORPUS) + exhaustive()
     ctx.count('exhaustive_product_cases', len(cases) - len(CORPUS))
@@ -559,6 +573,8 @@ def run(ctx):
             cases.append(t[0])
     explore(ctx, cases, twins)
     explore_subst(ctx, subst_cases(rng, ctx.tier))
+    import c17_session
+    c17_session.explore_sessions(ctx, c17_session.session_cases(rng, ctx.tier))
 
 
 def replay(ctx, path):
@@ -567,7 +583,10 @@ def replay(ctx, path):
     wrapper = {}
     if isinstance(c, dict) and 'case' in c:
         wrapper, c = c, c['case']
-    if isinstance(c, dict) and 'subst' in c:
+    if isinstance(c, dict) and 'session' in c:
+        import c17_session
+        c17_session.explore_sessions(ctx, [c])
+    elif isinstance(c, dict) and 'subst' in c:
         explore_subst(ctx, [c])
     elif not c or 'envs' not in c:
         print('replay file names no input (proof/correspondence obligation): re-run ./check C17')
